@@ -500,8 +500,20 @@ fn wait_for_baton(me: usize) {
     let start = Instant::now();
     while CURRENT.load(Ordering::Acquire) != me {
         std::thread::park_timeout(Duration::from_millis(2000));
-        if start.elapsed() > Duration::from_secs(120) {
-            eprintln!("HARNESS-ERROR: watchdog: task {me} waited 120 s for the baton");
+        if start.elapsed() > Duration::from_secs(900) {
+            let cur = CURRENT.load(Ordering::Acquire);
+            let state = match KERNEL.try_lock() {
+                Ok(g) => match g.as_ref() {
+                    Some(k) => format!(
+                        "steps={} tasks=[{}]",
+                        k.steps,
+                        k.tasks.iter().enumerate().map(|(i, t)| format!("t{i}:{:?}@{}", t.state, t.last_site)).collect::<Vec<_>>().join(" ")
+                    ),
+                    None => "no run".to_string(),
+                },
+                Err(_) => "kernel lock is held".to_string(),
+            };
+            eprintln!("HARNESS-ERROR: watchdog: task {me} waited 900 s for the baton; baton holder = {cur}; {state}");
             std::process::exit(2);
         }
     }
